@@ -20,7 +20,7 @@ namespace math
 For unsigned types, this returns:
 
 \f[
-\min(a - b, b - a)
+\max(a, b) - \min(a, b)
 \f]
 
 For other types, <code>abs(a-b)</code> is returned.
